@@ -7,7 +7,15 @@ import Usual.C20.Monitor
 open Usual Usual.C20
 
 def parseWho (s : String) : Option Who :=
-  if s == "W" then some .w else (s.toNat?).map Who.s
+  if s == "W" then some .w
+  else if s == "N" then some (.s 9)     -- a helper thread started by the resolver (not in the model)
+  else (s.toNat?).map Who.s
+
+/-- request templates are named by one character 0-9a-z -/
+def hostVal (c : Char) : Option Nat :=
+  if '0' ≤ c ∧ c ≤ '9' then some (c.toNat - '0'.toNat)
+  else if 'a' ≤ c ∧ c ≤ 'z' then some (c.toNat - 'a'.toNat + 10)
+  else none
 
 def parseSev (s : String) : Option Sev :=
   if s == "0" then some .none else if s == "S" || s == "B" then some .signal else if s == "T" then some .thread else none
@@ -16,7 +24,7 @@ def parseMode (s : String) : Option Mode :=
   if s == "W" then some .wait else if s == "N" then some .nowait else none
 
 def parseHosts (s : String) : Option (List Nat) :=
-  s.toList.mapM hexVal
+  s.toList.mapM hostVal
 
 def parseEv (ws : List String) : Option Ev :=
   match ws with
@@ -32,10 +40,11 @@ def parseEv (ws : List String) : Option Ev :=
   | ["malloc", i, _] => do some (.malloc (← i.toNat?))
   | ["signal", i] => do some (.signal (← i.toNat?))
   | ["ret", i, b, rc, snap] => do some (.ret (← i.toNat?) (← b.toNat?) (← rc.toInt?) snap.toList)
-  | ["gacall", x, b, k, h] => do some (.gacall (← parseWho x) (← b.toNat?) (← k.toNat?) (← h.toNat?))
+  | ["gacall", x, b, k, h, ok] => do
+    some (.gacall (← parseWho x) (← b.toNat?) (← k.toNat?) (← h.toNat?) (← ok.toNat?))
   | ["garet", x, b, k, rc] => do some (.garet (← parseWho x) (← b.toNat?) (← k.toNat?) (← rc.toInt?))
   | ["notify", x, b, snap] => do some (.notify (← parseWho x) (← b.toNat?) snap.toList)
-  | ["kill", x, t, sl] => do some (.kill (← parseWho x) (← t.toNat?) (← sl.toNat?))
+  | ["kill", x, t, sl, bid] => do some (.kill (← parseWho x) (← t.toNat?) (← sl.toNat?) (← bid.toNat?))
   | ["sigrecv", i, b, _, snap] => do some (.sigrecv (← i.toNat?) (← b.toNat?) snap.toList)
   | ["mask", x, b, same, _] => do some (.mask (← parseWho x) (← b.toNat?) (← same.toNat?))
   | ["free", "W"] => some .free
@@ -106,7 +115,7 @@ def addLine (a : TAcc) (line : String) : TAcc :=
   | "bad-op" :: _ => { a with bad := some (a.n, "bad-op") }
   | ["lock", "W", "I"] => { a with bad := some (a.n, "INT a resolver thread locks a second queue mutex (two contexts exist; a data race on the static is ThreadSanitizer's to report)") }
   | ["unlock", "W", "I"] => { a with bad := some (a.n, "INT a resolver thread unlocks a second queue mutex (two contexts exist)") }
-  | ["gacall", _, "-1", _, _] => { a with bad := some (a.n, "getaddrinfo called for something that is not a submitted request") }
+  | ["gacall", _, "-1", _, _, _] => { a with bad := some (a.n, "getaddrinfo called for something that is not a submitted request") }
   | _ =>
     match parseEv ws with
     | some e => { a with evs := e :: a.evs, n := a.n + 1 }
